@@ -38,6 +38,18 @@ inductive Prog (σ : Type) : Type → Type 1 where
   | closure {α : Type} (body : Prog σ α) : Prog σ α
   /-- `for _, x := range … { body }` -/
   | range {β : Type} [Inhabited β] (l : List β) (body : β → Prog σ Unit) : Prog σ Unit
+  /-- `retries := n; for { body }`: the body either returns (`done`), aborts, or — only while the
+  counter is positive — decrements it and `continue`s (`retry`) -/
+  | loop (n : Nat) (body : Nat → Prog σ WmStep) : Prog σ Unit
+
+/-- semantics of `Prog.loop`: the counter goes down with every `retry`; with the counter at 0 the
+body cannot `continue` any more (it aborts instead), whatever it returns ends the loop -/
+def loopM {σ : Type} : Nat → (Nat → M σ WmStep) → M σ Unit
+  | 0, b => bindM (b 0) fun _ => pureM ()
+  | n + 1, b => bindM (b (n + 1)) fun r =>
+      match r with
+      | .done => pureM ()
+      | .retry => loopM n b
 
 namespace Prog
 variable {σ : Type}
@@ -51,6 +63,7 @@ def denote : {α : Type} → Prog σ α → M σ α
   | _, .defer_ _ d body => finally_ (denote body) d
   | _, .closure body => denote body
   | _, @Prog.range _ _ _ l body => forEach (fun x => denote (body x)) l
+  | _, .loop n body => loopM n (fun k => denote (body k))
 
 def toAtoms : List Tok → List Atom
   | [] => []
@@ -73,6 +86,7 @@ def paths : {α : Type} → Prog σ α → List SkelPath
   | _, .closure body => paths body
   | _, @Prog.range _ _ inst _ body =>
     [([.range ((paths (body (@default _ inst))).map fun a => (toAtoms a.1, a.2))], false)]
+  | _, .loop _ body => paths (body 0)
 
 end Prog
 
@@ -171,14 +185,30 @@ def applyCommandsP (cs : List Str) : Prog σ Unit :=
 
 end programs
 
-/-- `writeMem`: its retry loop is not a `Prog`; the declared path set (the semantics of the model's
-`writeMem` is tied by the dialogues) -/
-def writeMemPaths : List SkelPath :=
-  let issue : Tok := .atom (.step "IssueCmd(\"write memory\",\"#[ ]?|\\\\[confirm\\\\]\")")
-  let get : Tok := .atom (.step "GetCmdOutput(\"\")")
-  let ab : Tok := .atom (.step "Abort()")
-  let lp : Tok := .atom (.step "loop")
-  [([issue], false), ([issue, ab], true), ([issue, lp], false),
-   ([issue, get], false), ([issue, get, ab], true), ([issue, get, lp], false)]
+def isPos : Nat → Bool
+  | 0 => false
+  | _ + 1 => true
+
+section writeMemProg
+variable {σ : Type} (D : Device σ)
+
+/-- one round of the `for` loop of `writeMem`, `k` = the value of `retries` -/
+def writeMemRoundP (k : Nat) : Prog σ WmStep :=
+  .bind (.stmt "IssueCmd(\"write memory\",\"#[ ]?|\\\\[confirm\\\\]\")"
+          (issueCmd D writeCmd "#[ ]?|\\[confirm\\]" [(lit "#", true), (lit "[confirm]", false)])) fun out =>
+  .bind (.ite none (containsLit (lit "Overwrite the previous NVRAM configuration") out)
+          (.stmt "GetCmdOutput(\"\")" (bindM (send D []) fun _ => bindM getOutput (stripEcho [])))
+          (.quiet (pureM out))) fun out =>
+  .ite none (containsLit (lit "[OK]") out) (.quiet (pureM .done))
+    (.ite none (containsLit (lit "startup-config file open failed") out)
+      (.ite none (isPos k)
+        (.stmt "loop" (pureM .retry))
+        (.abort "Abort()" (abortM .writeMemGiveUp)))
+      (.abort "Abort()" (abortM (.writeMemUnexpected out))))
+
+/-- `writeMem`: `retries := 2; for { … }` -/
+def writeMemP : Prog σ Unit := .loop 2 (writeMemRoundP D)
+
+end writeMemProg
 
 end NA.Ios
